@@ -298,6 +298,37 @@ func runC09(c *config) {
 			o.Stat("through_parser")
 		}
 	}
+	// 6b. width 1 through the parser, in every spelling of its two values (the value decides, not the text)
+	for _, lit := range []string{"0", "1", "00", "01", "-0", "u0x0", "u0x1", "u0x00", "s0x0", "true", "false"} {
+		src := fmt.Sprintf("@g = global i1 %s\ndefine i1 @f(i1 %%p) {\n\t%%r = xor i1 %%p, %s\n\tret i1 %%r\n}\n", lit, lit)
+		_, want := c09Parse(1, lit)
+		var got, got2 *big.Int
+		oc, msg := guard(func() error {
+			m, err := asm.ParseString("c09i1.ll", src)
+			if err != nil {
+				return err
+			}
+			got = m.Globals[0].Init.(*constant.Int).X
+			got2 = m.Funcs[0].Blocks[0].Insts[0].(*ir.InstXor).Y.(*constant.Int).X
+			m2, err := asm.ParseString("c09i1b.ll", m.String())
+			if err != nil {
+				return err
+			}
+			if m2.Globals[0].Init.(*constant.Int).X.Cmp(got) != 0 {
+				return fmt.Errorf("value changes through print and parse")
+			}
+			return nil
+		})
+		o.Stat("through_parser_i1")
+		if want == nil {
+			continue
+		}
+		if oc != ocOk || got.Cmp(want) != 0 || got2.Cmp(want) != 0 {
+			o.Fail("through_parser", "", "an i1 literal in a module is not read as its value", map[string]interface{}{"src": src, "want": want.String(), "got": fmt.Sprint(got), "msg": msg})
+		} else {
+			o.Pass("through_parser")
+		}
+	}
 	// 7. one literal text at several widths in one module: the value of a literal depends on the width of its
 	// type (s0x reads a sign bit, a decimal may not fit), so what one occurrence meant says nothing about the next
 	for i := 0; i < 150*c.scale; i++ {
